@@ -65,38 +65,46 @@ def unit_workdir(prop, unit):
 
 
 def build_overlay(prop, unit, native):
-    """returns (overlay map virtual->real, harness table)"""
+    """returns (overlay map virtual->real, harness table).
+    unit["files"]: harness files of the main package (unit["pkgdir"]);
+    unit["extra"]: [(pkgdir, file), ...] helper files injected into other packages (exported constructors etc.)."""
     wd = unit_workdir(prop, unit)
     ov = {}
     harnesses = {}
-    pkgdir = os.path.join(REPO, unit["pkgdir"])
-    pk = None
-    for i, hf in enumerate(unit["files"]):
+    main_dir = os.path.join(REPO, unit["pkgdir"])
+    per_pkg = {}   # pkgdir -> package name
+    counter = 0
+    for pkgdir, hf in [(unit["pkgdir"], f) for f in unit["files"]] + list(unit.get("extra", [])):
         real = os.path.join(VERIF, hf)
-        pk = pkgname_of(real)
-        ov[os.path.join(pkgdir, "zz_vh_%d.go" % i)] = real
-        harnesses.update(parse_harnesses(real))
-    tmpl = "vrt_native.go.txt" if native else "vrt_sym.go.txt"
-    src = open(os.path.join(VERIF, "harness/vrt", tmpl)).read().replace("package PKG", "package " + pk)
-    vrt = os.path.join(wd, "zz_vrt_%s.go" % ("native" if native else "sym"))
-    open(vrt, "w").write(src)
-    ov[os.path.join(pkgdir, "zz_vrt.go")] = vrt
+        per_pkg[pkgdir] = pkgname_of(real)
+        ov[os.path.join(REPO, pkgdir, "zz_vh_%d.go" % counter)] = real
+        counter += 1
+        if pkgdir == unit["pkgdir"]:
+            harnesses.update(parse_harnesses(real))
+    for pkgdir, pk in per_pkg.items():
+        tmpl = "vrt_wrap.go.txt" if native else "vrt_sym.go.txt"
+        src = open(os.path.join(VERIF, "harness/vrt", tmpl)).read().replace("package PKG", "package " + pk)
+        vrt = os.path.join(wd, "zz_vrt_%s_%s.go" % (pk, "native" if native else "sym"))
+        open(vrt, "w").write(src)
+        ov[os.path.join(REPO, pkgdir, "zz_vrt.go")] = vrt
+    pk = per_pkg[unit["pkgdir"]]
     # extra overlays: replacement of repo files (e.g. scaled constants), generated per run
     for virt, gen in unit.get("rewrites", {}).items():
         outp = os.path.join(wd, "rw_" + os.path.basename(virt))
         gen(os.path.join(REPO, virt), outp)
         ov[os.path.join(REPO, virt)] = outp
     if native:
+        ov[os.path.join(REPO, "internal/vrt/vrt.go")] = os.path.join(VERIF, "harness/vrt/vrt_pkg.go.txt")
         tab = os.path.join(wd, "zz_vtable.go")
         with open(tab, "w") as f:
             f.write("package %s\n\nvar vHarnessTable = map[string]func(){\n" % pk)
             for h in sorted(harnesses):
                 f.write("\t\"%s\": %s,\n" % (h, h))
             f.write("}\n")
-        ov[os.path.join(pkgdir, "zz_vtable.go")] = tab
+        ov[os.path.join(main_dir, "zz_vtable.go")] = tab
         tst = os.path.join(wd, "zz_vreplay_test.go")
         open(tst, "w").write(open(os.path.join(VERIF, "harness/vrt/vreplay_test.go.txt")).read().replace("package PKG", "package " + pk))
-        ov[os.path.join(pkgdir, "zz_vreplay_test.go")] = tst
+        ov[os.path.join(main_dir, "zz_vreplay_test.go")] = tst
     return ov, harnesses
 
 
@@ -232,6 +240,9 @@ def check(prop, tier, only=None):
     from .engine import Prog
     spec = props.PROPS[prop]
     t_start = time.time()
+    import glob
+    for f in glob.glob(os.path.join(VERIF, "evidence", "replay", prop + "-*.json")):
+        os.unlink(f)
     seed = int(os.environ.get("VERIF_SEED", "0") or 0)
     known = [k for k in load_known() if k.get("property") == prop and k.get("status") == "open"]
     all_results = []
@@ -253,7 +264,12 @@ def check(prop, tier, only=None):
         if nworkers > 1 and len(names) > 1:
             ctx = mp.get_context("fork")
             with ctx.Pool(min(nworkers, len(names))) as pool:
-                results = pool.map(run_one, names, chunksize=1)
+                results = []
+                for r in pool.imap_unordered(run_one, names, chunksize=1):
+                    results.append(r)
+                    if os.environ.get("VERIF_VERBOSE"):
+                        print("  [%6.1fs] %s paths=%s queries=%s viol=%d inconcl=%d" % (time.time() - t_start, r["harness"], r.get("paths"), r.get("queries"), len(r["violations"]), len(r["inconclusive"])), file=sys.stderr, flush=True)
+                results.sort(key=lambda r: r["harness"])
         else:
             results = [run_one(n) for n in names]
         for r in results:
